@@ -155,7 +155,23 @@ class C16(Harness):
                 t3.fit(X)
                 apply3 = t3.transform
             apply3(Xs)
+            lens_ = {len(c) for inst in inp["x"] for c in inst}
+            if len(lens_) == 1 and min(lens_) >= 3 and k != "column-ensemble":
+                # ... and, in between, a panel of shorter series
+                Xshort, _ = _c14.HARNESS._nested([[c[:-1] for c in inst] for inst in inp["x"]])
+                try:
+                    apply3(Xshort)
+                except Exception:  # noqa  (a transformer may refuse series shorter than those it was fitted on)
+                    pass
             out["batch_after_single"] = rows_of(apply3(X))
+            if k in ("padding", "truncation"):
+                # the same panel whose cells carry 1-based time labels: values go by position, labels inside cells play no role
+                import pandas as pd
+
+                X1 = X.copy()
+                for c in X1.columns:
+                    X1[c] = [pd.Series(list(cell_), index=range(1, len(cell_) + 1), dtype=object if sym else float) for cell_ in X1[c]]
+                out["one_based_cells"] = rows_of(apply(X1))
             # the same selections with their original instance labels kept (what X.iloc[...] hands over)
             out["perm_keep"] = rows_of(apply(X.iloc[inp["perm"]]))
             out["single_keep"] = rows_of(apply(X.iloc[[inp["single"]]]))
@@ -202,6 +218,8 @@ class C16(Harness):
             self._same(P, "single-instance-equals-batch-row", out["single_keep"][0], full[inp["single"]], dk)
         P.check("row-count-and-order", len(out["batch_after_single"]) == ni, dict(d, what="batch after a single-instance call"))
         self._same(P, "single-instance-equals-batch-row", out["batch_after_single"], full, dict(d, what="the whole batch transformed after a single-instance call on the same object"))
+        if "one_based_cells" in out:
+            self._same(P, "container-independent", out["one_based_cells"], full, dict(d, what="cells with 1-based time labels"))
         if "array" in out:
             self._same(P, "container-independent", out["array_F"], full, dict(d, memory_order="F"))
             self._same(P, "container-independent", out["array"], full, d)
